@@ -5,6 +5,8 @@ import (
 	"regexp"
 	"strconv"
 	"time"
+
+	"github.com/scrapli/scrapligo/util"
 )
 
 const (
@@ -36,8 +38,11 @@ func (d *Driver) read() {
 		default:
 		}
 
+		util.VerifYield("nc.read.top")
 		rb, err := d.Channel.Read()
+		util.VerifYield("nc.read.after-channel-read")
 		if err != nil {
+			util.VerifYield("nc.read.before-errs-send")
 			select {
 			case d.errs <- err:
 			case <-d.done:
